@@ -710,3 +710,250 @@ Proof.
   - apply Forall_forall. intros a _. destruct a; [apply tree_seg_all|exact I].
 Qed.
 End T.
+
+(* ================= 6. predicates over the tree and normalisation ================= *)
+Definition aok (pk : bytes -> bool) (pv : value -> bool) (a : attr) : Prop :=
+  match a with A k x => pk k = true /\ tree_all pk pv x = true | ANil => True end.
+
+Lemma attrs_all_Forall pk pv l : attrs_all pk pv l = true <-> Forall (aok pk pv) l.
+Proof.
+  induction l as [|a t IH]; [split; [constructor|reflexivity]|].
+  destruct a as [k x|]; cbn [attrs_all].
+  - rewrite !andb_true_iff. rewrite IH. split.
+    + intros [[H1 H2] H3]. constructor; [split; assumption|exact H3].
+    + intros H. inversion H as [|? ? H12 H3]; subst. destruct H12 as [H1 H2]. tauto.
+  - rewrite IH. split; [intros H; constructor; [exact I|exact H]|intros H; inversion H; assumption].
+Qed.
+
+Lemma norm_group items : norm_value (VGroup items) = VGroup (sort_dedupe (map norm_attr items)).
+Proof.
+  cbn [norm_value]. f_equal. f_equal.
+  induction items as [|a t IH]; [reflexivity|].
+  destruct a as [k x|]; cbn [map norm_attr]; f_equal; exact IH.
+Qed.
+Lemma norm_leaf v : is_group v = false -> norm_value v = v.
+Proof. destruct v; intros H; try reflexivity. discriminate. Qed.
+
+Lemma Forall_sort_dedupe (P : attr -> Prop) l : Forall P l -> Forall P (sort_dedupe l).
+Proof. intros H. apply Forall_forall. intros a Ha. rewrite Forall_forall in H. apply H. apply sort_dedupe_incl. exact Ha. Qed.
+
+Lemma norm_value_all pk pv : forall v, tree_all pk pv v = true -> tree_all pk pv (norm_value v) = true.
+Proof.
+  apply (value_tree_ind (fun v => tree_all pk pv v = true -> tree_all pk pv (norm_value v) = true)).
+  - intros v G H. rewrite norm_leaf by exact G. exact H.
+  - intros items IH H. rewrite norm_group. rewrite tree_all_group in *.
+    apply attrs_all_Forall. apply Forall_sort_dedupe. apply attrs_all_Forall in H.
+    apply Forall_map_intro. intros a Ha. rewrite Forall_forall in H, IH.
+    specialize (H a Ha). specialize (IH a Ha). destruct a as [k x|]; cbn [norm_attr aok] in *; [|exact I].
+    destruct H as [H1 H2]. split; [exact H1|apply IH; exact H2].
+Qed.
+
+Lemma norm_attrs_all pk pv l : attrs_all pk pv l = true -> attrs_all pk pv (norm_attrs l) = true.
+Proof.
+  intros H. unfold norm_attrs. apply attrs_all_Forall. apply Forall_sort_dedupe. apply attrs_all_Forall in H.
+  apply Forall_map_intro. intros a Ha. rewrite Forall_forall in H. specialize (H a Ha).
+  destruct a as [k x|]; cbn [norm_attr aok] in *; [|exact I].
+  destruct H as [H1 H2]. split; [exact H1|apply norm_value_all; exact H2].
+Qed.
+
+(* a weaker predicate on keys and leaves holds wherever a stronger one does *)
+Lemma tree_all_mono pk pv pk' pv' :
+  (forall k, pk k = true -> pk' k = true) ->
+  (forall v, is_group v = false -> pv v = true -> pv' v = true) ->
+  forall v, tree_all pk pv v = true -> tree_all pk' pv' v = true.
+Proof.
+  intros Hk Hv.
+  apply (value_tree_ind (fun v => tree_all pk pv v = true -> tree_all pk' pv' v = true)).
+  - intros v G H. rewrite tree_all_leaf in * by exact G. apply Hv; assumption.
+  - intros items IH H. rewrite tree_all_group in *. apply attrs_all_Forall. apply attrs_all_Forall in H.
+    apply Forall_forall. intros a Ha. rewrite Forall_forall in H, IH.
+    specialize (H a Ha). specialize (IH a Ha). destruct a as [k x|]; cbn [aok] in *; [|exact I].
+    destruct H as [H1 H2]. split; [apply Hk; exact H1|apply IH; exact H2].
+Qed.
+Lemma attrs_all_mono pk pv pk' pv' :
+  (forall k, pk k = true -> pk' k = true) ->
+  (forall v, is_group v = false -> pv v = true -> pv' v = true) ->
+  forall l, attrs_all pk pv l = true -> attrs_all pk' pv' l = true.
+Proof.
+  intros Hk Hv l H. apply attrs_all_Forall. apply attrs_all_Forall in H.
+  apply Forall_forall. intros a Ha. rewrite Forall_forall in H. specialize (H a Ha).
+  destruct a as [k x|]; cbn [aok] in *; [|exact I].
+  destruct H as [H1 H2]. split; [apply Hk; exact H1|eapply tree_all_mono; eassumption].
+Qed.
+
+(* every leaf value of a tree inside the domain is printable *)
+Lemma leaves_v_fv_ok : forall v dk, dom_value v = true -> Forall (fun kv => fv_ok (snd kv)) (leaves_v dk v).
+Proof.
+  apply (value_tree_ind (fun v => forall dk, dom_value v = true -> Forall (fun kv => fv_ok (snd kv)) (leaves_v dk v))).
+  - intros v G dk D. rewrite leaves_leaf by exact G. constructor; [|constructor].
+    unfold dom_value in D. rewrite tree_all_leaf in D by exact G. apply leaf_fv_ok; assumption.
+  - intros items IH dk D. rewrite leaves_group. unfold dom_value in D. rewrite tree_all_group in D.
+    revert D. induction IH as [|a t Ha Ht IHt]; intros D; [constructor|].
+    destruct a as [k x|]; cbn [leaves attrs_all] in *.
+    + apply andb_true_iff in D. destruct D as [D Dt]. apply andb_true_iff in D. destruct D as [_ Dx].
+      apply Forall_app. split; [apply Ha; exact Dx|apply IHt; exact Dt].
+    + apply IHt. exact D.
+Qed.
+Lemma leaves_fv_ok pfx l : dom_attrs l = true -> Forall (fun kv => fv_ok (snd kv)) (leaves pfx l).
+Proof.
+  induction l as [|a t IH]; intros D; [constructor|].
+  destruct a as [k x|]; unfold dom_attrs in *; cbn [leaves attrs_all] in *.
+  - apply andb_true_iff in D. destruct D as [D Dt]. apply andb_true_iff in D. destruct D as [_ Dx].
+    apply Forall_app. split; [apply leaves_v_fv_ok; exact Dx|apply IH; exact Dt].
+  - apply IH. exact D.
+Qed.
+
+(* ================= 7. the whole record ================= *)
+Local Arguments members_of : simpl never.
+
+Section R.
+Variable isprint : Z -> bool.
+Hypothesis isprint_ascii : forall r, 0 <= r < 128 -> isprint r = (32 <=? r) && (r <? 127).
+Variable g : registry.
+Notation print_fval := (print_fval isprint).
+Notation printed := (printed isprint).
+
+Definition lf_caller (cl : option (bytes * Z * bytes)) : bytes :=
+  match cl with
+  | None => []
+  | Some (file, line, fn) =>
+      (x20 :: k_caller_file ++ x3d :: quote_go isprint file)
+      ++ (x20 :: k_caller_line ++ x3d :: dec_of_Z line)
+      ++ (x20 :: k_caller_function ++ x3d :: quote_go isprint fn)
+  end.
+
+(* the line in the shape the loop lemmas read; [tsq] = the timestamp between its quotes *)
+Definition lf_line (tsq : bytes) (c : ecfg) (msg : bytes) (attrs : list attr) : bytes :=
+  (k_time ++ x3d :: tsq)
+  ++ (match e_name c with [] => [] | nm => x20 :: k_logger ++ x3d :: quote_go isprint nm end)
+  ++ (x20 :: k_level ++ x3d :: quote_go isprint (level_string g (e_lvl c)))
+  ++ (x20 :: k_msg ++ x3d :: quote_go isprint msg)
+  ++ concat (map (fun x => x20 :: x) (members_of isprint ShLogfmt 0 0 [] (norm_attrs attrs)))
+  ++ lf_caller (e_caller c).
+
+Lemma caller_lf cl : caller_part isprint ShLogfmt cl = lf_caller cl.
+Proof.
+  destruct cl as [[[file line] fn]|]; [|reflexivity].
+  unfold caller_part, lf_caller, quoted, n_caller, n_file, n_line, n_function, k_caller_file, k_caller_line, k_caller_function.
+  repeat (cbn [app]; rewrite <- ?app_assoc). reflexivity.
+Qed.
+
+Lemma encode_blank c msg attrs : e_mode c = ShLogfmt -> blank_print c msg = true ->
+  encode isprint g c msg attrs = Some [x0a].
+Proof. intros Hm Hb. unfold blank_print in Hb. unfold encode. rewrite Hb. reflexivity. Qed.
+
+Lemma encode_lf_raw c msg attrs : e_mode c = ShLogfmt -> blank_print c msg = false ->
+  encode isprint g c msg attrs = Some (lf_line (x22 :: e_ts c ++ [x22]) c msg attrs ++ [x0a]).
+Proof.
+  intros Hm Hb. unfold blank_print in Hb. unfold encode. rewrite Hb, Hm. cbv zeta iota. f_equal.
+  rewrite caller_lf. unfold lf_line.
+  unfold field, key_token, colon, comma, quoted, ser_top, render_members, n_time, n_logger, n_level, n_msg, k_time, k_logger, k_level, k_msg.
+  destruct (e_name c) as [|n0 nm]; repeat (cbn [app]; rewrite <- ?app_assoc); reflexivity.
+Qed.
+
+Lemma encode_lf c msg attrs : e_mode c = ShLogfmt -> blank_print c msg = false -> qtext_ok (e_ts c) = true ->
+  encode isprint g c msg attrs = Some (lf_line (quote_go isprint (e_ts c)) c msg attrs ++ [x0a]).
+Proof.
+  intros Hm Hb Hts. rewrite (quote_go_qtext isprint isprint_ascii _ Hts). apply encode_lf_raw; assumption.
+Qed.
+
+Lemma seg_qpair k s : key_ok k -> seg (x20 :: k ++ x3d :: quote_go isprint s) [(k, quote_go isprint s)].
+Proof. intros Hk. apply seg_blank. apply (seg_pair isprint isprint_ascii k (FQuoted s) Hk I). Qed.
+
+Lemma caller_seg cl :
+  seg (lf_caller cl)
+      (map printed (match cl with
+                    | None => []
+                    | Some (file, line, fn) =>
+                        [(k_caller_file, FQuoted file); (k_caller_line, FBare (dec_of_Z line)); (k_caller_function, FQuoted fn)]
+                    end)).
+Proof.
+  destruct cl as [[[file line] fn]|]; [|apply seg_nil].
+  unfold lf_caller. cbn [map].
+  change [printed (k_caller_file, FQuoted file); printed (k_caller_line, FBare (dec_of_Z line)); printed (k_caller_function, FQuoted fn)]
+    with ([(k_caller_file, quote_go isprint file)] ++ [(k_caller_line, dec_of_Z line)] ++ [(k_caller_function, quote_go isprint fn)]).
+  apply seg_app; [apply seg_qpair; apply key_ok_lit; reflexivity| |exact eq_refl].
+  apply seg_app; [|apply seg_qpair; apply key_ok_lit; reflexivity|exact eq_refl].
+  apply seg_blank. apply (seg_pair isprint isprint_ascii k_caller_line (FBare (dec_of_Z line))).
+  - apply key_ok_lit. reflexivity.
+  - apply dec_bare_ok.
+Qed.
+
+Lemma line_seg c msg attrs : dom_attrs attrs = true ->
+  seg (lf_line (quote_go isprint (e_ts c)) c msg attrs) (map printed (fields_of g c msg attrs)).
+Proof.
+  intros D. unfold lf_line, fields_of. cbn [map]. rewrite !map_app. cbn [map].
+  change (printed (k_time, FQuoted (e_ts c)) :: ?l) with ([(k_time, quote_go isprint (e_ts c))] ++ l).
+  apply seg_app.
+  { apply (seg_pair isprint isprint_ascii k_time (FQuoted (e_ts c))); [apply key_ok_lit; reflexivity|exact I]. }
+  2:{ destruct (e_name c); exact eq_refl. }
+  apply seg_app.
+  { destruct (e_name c) as [|n0 nm]; [apply seg_nil|]. cbn [map]. apply seg_qpair. apply key_ok_lit. reflexivity. }
+  2:{ exact eq_refl. }
+  change [printed (k_level, FQuoted (level_string g (e_lvl c))); printed (k_msg, FQuoted msg)]
+    with ([(k_level, quote_go isprint (level_string g (e_lvl c)))] ++ [(k_msg, quote_go isprint msg)]).
+  rewrite <- app_assoc.
+  assert (Lc : led (lf_caller (e_caller c))) by (destruct (e_caller c) as [[[file line] fn]|]; [exact eq_refl|exact I]).
+  apply seg_app; [apply seg_qpair; apply key_ok_lit; reflexivity| |exact eq_refl].
+  apply seg_app; [apply seg_qpair; apply key_ok_lit; reflexivity| |].
+  2:{ destruct (members_of isprint ShLogfmt 0 0 [] (norm_attrs attrs)); [exact Lc|exact eq_refl]. }
+  apply seg_app.
+  - apply (attrs_seg isprint isprint_ascii). apply norm_attrs_all. exact D.
+  - apply caller_seg.
+  - exact Lc.
+Qed.
+
+Lemma fields_fv_ok c msg attrs : dom_attrs attrs = true ->
+  Forall (fun kv => fv_ok (snd kv)) (fields_of g c msg attrs).
+Proof.
+  intros D. unfold fields_of. constructor; [exact I|].
+  apply Forall_app. split; [destruct (e_name c); repeat constructor|].
+  apply Forall_app. split; [repeat constructor|].
+  apply Forall_app. split; [apply leaves_fv_ok; apply norm_attrs_all; exact D|].
+  destruct (e_caller c) as [[[file line] fn]|]; [|constructor].
+  constructor; [exact I|]. constructor; [apply dec_bare_ok|]. constructor; [exact I|constructor].
+Qed.
+
+Lemma parse_printed F : Forall (fun kv => fv_ok (snd kv)) F ->
+  map_opt (fun kv : bytes * bytes => option_map (pair (fst kv)) (lf_decode (snd kv))) (map printed F) = Some F.
+Proof.
+  intros H. apply map_opt_map. intros [k v] Hin. rewrite Forall_forall in H. specialize (H _ Hin).
+  unfold Logfmt.printed. cbn [fst snd] in *. rewrite (lf_decode_printed isprint isprint_ascii v H). reflexivity.
+Qed.
+
+(* the main theorem *)
+Theorem roundtrip c msg attrs out :
+  e_mode c = ShLogfmt -> lf_domain c msg attrs = true ->
+  encode isprint g c msg attrs = Some out ->
+  exists line, out = line ++ [x0a]
+    /\ lf_tokens line = Some (map printed (fields_of g c msg attrs))
+    /\ lf_parse line = Some (fields_of g c msg attrs).
+Proof.
+  intros Hm D E. unfold lf_domain in D. apply andb_true_iff in D. destruct D as [D Da].
+  apply andb_true_iff in D. destruct D as [Hb Hts]. apply negb_true_iff in Hb.
+  rewrite (encode_lf c msg attrs Hm Hb Hts) in E. injection E as E'.
+  exists (lf_line (quote_go isprint (e_ts c)) c msg attrs). split; [symmetry; exact E'|].
+  pose proof (seg_tokens _ _ (line_seg c msg attrs Da)) as T. split; [exact T|].
+  unfold lf_parse. rewrite T. apply parse_printed. apply fields_fv_ok. exact Da.
+Qed.
+
+(* every printed value decodes to the expected value: for the string-like kinds the exact bytes *)
+Lemma printed_decodes c msg attrs : dom_attrs attrs = true ->
+  Forall (fun kv => lf_decode (print_fval (snd kv)) = Some (snd kv)) (fields_of g c msg attrs).
+Proof.
+  intros D. eapply Forall_impl; [|apply fields_fv_ok; exact D].
+  intros kv H. apply (lf_decode_printed isprint isprint_ascii). exact H.
+Qed.
+
+Theorem no_forgery c msg attrs out :
+  e_mode c = ShLogfmt -> lf_domain c msg attrs = true ->
+  encode isprint g c msg attrs = Some out ->
+  exists line toks, out = line ++ [x0a] /\ lf_tokens line = Some toks
+    /\ map fst toks = map fst (fields_of g c msg attrs)
+    /\ length toks = length (fields_of g c msg attrs).
+Proof.
+  intros Hm D E. destruct (roundtrip c msg attrs out Hm D E) as (line & E1 & T & _).
+  exists line, (map printed (fields_of g c msg attrs)). split; [exact E1|]. split; [exact T|].
+  split; [rewrite map_map; reflexivity|apply map_length].
+Qed.
+End R.
